@@ -2097,9 +2097,91 @@ def check_bindings(ck, R):
               "version unchanged and the stored result is served" % (cls.name, A.short(k, 70)), fa.where(k))
 
 
+_NARROWING_CALLS = {"len", "type", "bool", "callable", "isinstance", "issubclass", "hasattr", "str", "repr"}
+
+
+def _access_paths(fa, e, at, _seen=None, depth=12):
+    """How the fresh resolution of a rule's symbol (`self.resolver()` / `self.ref_resolver()`) and the state the rule captured
+    (`self.<field>`) reach the value of `e`: a set of (root, path, frozen) with root 'fresh' or 'cap:<field>' and path the
+    attribute names / '[]' / '<fn>()' steps that NARROW the object on the way.  Looking through decorator wrappers
+    (`.__wrapped__`) is not a step; a call that transforms the value as a whole freezes the path (what is done to its result
+    says nothing about parts of the object).  Locals are followed to every definition that reaches them."""
+    seen = _seen if _seen is not None else set()
+    out = set()
+    if e is None or depth <= 0:
+        return out
+
+    def ext(ps, step):
+        return {(r_, p_ if fz or step == "__wrapped__" else p_ + (step,), fz) for (r_, p_, fz) in ps}
+
+    def rec(x, a_=at):
+        return _access_paths(fa, x, a_, seen, depth - 1)
+
+    if isinstance(e, ast.Call):
+        nm, rc = A.call_attr(e), A.call_recv(e)
+        if nm in ("resolver", "ref_resolver") and isinstance(rc, ast.Name) and rc.id == "self":
+            return {("fresh", (), False)}
+        if nm == "getattr" and isinstance(e.func, ast.Name) and len(e.args) >= 2 and A.const_str(e.args[1]) is not None:
+            return ext(rec(e.args[0]), A.const_str(e.args[1]))
+        if isinstance(e.func, ast.Name) and nm in _NARROWING_CALLS and e.args:
+            return {(r_, p_, True) for (r_, p_, _f) in ext(rec(e.args[0]), nm + "()")}
+        for x in list(e.args) + [k.value for k in e.keywords] + ([rc] if rc is not None else []):
+            out |= {(r_, p_, True) for (r_, p_, _f) in rec(x.value if isinstance(x, ast.Starred) else x)}
+        return out
+    if isinstance(e, ast.Attribute):
+        if isinstance(e.value, ast.Name) and e.value.id == "self":
+            return {("cap:" + e.attr, (), False)}
+        return ext(rec(e.value), e.attr)
+    if isinstance(e, ast.Subscript):
+        return ext(rec(e.value), "[]")
+    if isinstance(e, ast.Name):
+        if at is None or not isinstance(e.ctx, ast.Load):
+            return out
+        for d in fa.df.reaching(at, e.id):
+            if d.value is None or d.kind not in ("assign", "aug") or (d.node, d.name) in seen:
+                continue
+            seen.add((d.node, d.name))
+            out |= rec(d.value, d.node)
+        return out
+    if isinstance(e, ast.IfExp):
+        return rec(e.body) | rec(e.orelse)
+    if isinstance(e, (ast.Lambda, ast.ListComp, ast.SetComp, ast.DictComp, ast.GeneratorExp)):
+        # what is computed element by element: everything read inside counts, as a transformed value
+        for ch in ast.iter_child_nodes(e):
+            for x in ast.walk(ch):
+                if isinstance(x, (ast.Call, ast.Attribute, ast.Name)):
+                    out |= {(r_, p_, True) for (r_, p_, _f) in _access_paths(fa, x, at, seen, 2)}
+        return out
+    for ch in ast.iter_child_nodes(e):
+        if isinstance(ch, ast.expr):
+            out |= rec(ch)
+    return out
+
+
+def _hashed_paths(ck, cls):
+    """What compute_hash reads of the state the rule captured: {(field, path)}; empty when the rule contributes nothing."""
+    m = cls.methods.get("compute_hash")
+    out = set()
+    if m is None:
+        return out
+    fa = FA(ck, m)
+    for r in fa.returns():
+        if r.value is None or A.is_none(r.value) or not fa.nodes(r):
+            continue
+        for (root, path, _fz) in _access_paths(fa, r.value, fa.nodes(r)[0]):
+            if root.startswith("cap:"):
+                out.add((root[4:], path))
+    return out
+
+
+def _fmt_path(field, path):
+    return "self." + field + "".join(("." + s_ if not s_.endswith(("()", "]")) else " -> " + s_) for s_ in path)
+
+
 def check_did_change(ck, R):
     ck.rule(R, "change detection is real: each did_change compares a fresh resolution (or a fresh presence test) with "
-               "state captured when the rule was built", 4)
+               "state captured when the rule was built, and answers 'unchanged' only when that comparison covers everything "
+               "the rule's hash is computed from", 4)
     want = {
         "MementoFunctionHashRule": ("memento_fn",),
         "NonMementoFunctionHashRule": ("src_fn",),
@@ -2111,87 +2193,187 @@ def check_did_change(ck, R):
         m = cls.methods.get("did_change")
         ck.need(m is not None, "%s.did_change not found" % cls.qual)
         fa = FA(ck, m)
+        cfg = fa.cfg
         captured = want.get(cls.name, ())
         presence = cls.name == "UndefinedSymbolHashRule"
+        watch_only = _is_watch_only(cls)
         # the answer False without a comparison is allowed only when nothing is tracked
         allowed_false_guard = {"GlobalVariableHashRule": (("self.last_value is None", True),)}.get(cls.name, ())
+        hashed = _hashed_paths(ck, cls)
+        paths = _exit_paths(fa)
+        ck.need(paths is not None, "%s.did_change: too many paths" % cls.qual)
+        # The function is judged on its PATH CLASSES: every acyclic path to the normal exit with the literals of the branch
+        # tests taken on it (locals expanded, negations / nesting / guard clauses / result flags normalised away) and the
+        # value returned at its end - a constant, or an expression split into the ways it can come out false.
 
-        def judge(e, at):
-            """(fresh, captured, compares) for an expression evaluated at CFG node `at`: does its value come from a fresh
-            resolution, from the captured state, through a comparison?"""
-            d = fa.df.deps(e, at)
-            fl = list(_flow(fa, e, at).values())
-            has_in = any(isinstance(n, ast.Compare) and isinstance(n.ops[0], (ast.In, ast.NotIn)) for n in fl)
-            fresh = "call:resolver" in d or (presence and ("call:hasattr" in d or has_in))
-            cap = all(("attr:self." + c) in d for c in captured)
-            cmp_ = any(isinstance(n, ast.Compare) and isinstance(n.ops[0], (ast.Is, ast.IsNot, ast.Eq, ast.NotEq, ast.In, ast.NotIn)) for n in fl) or "call:hasattr" in d
-            return fresh, cap, cmp_
-
-        # the literals of the branch tests that are themselves the comparison (fresh resolution against captured state)
-        real_lits = set()
-        for n_ in fa.cfg.nodes:
-            if n_.kind == "test" and n_.id in fa.cfg.reachable_nodes():
-                for pos in (True, False):
-                    for (txt, _pol) in fa._atoms(n_.ast, n_.id, pos):
-                        for atom in [x for x in ast.walk(n_.ast) if isinstance(x, (ast.Compare, ast.Call, ast.Name))]:
-                            if fa._literal(atom, n_.id, True)[0] == txt and all(judge(atom, n_.id)):
-                                real_lits.add(txt)
-
-        def is_bool(e):
-            return isinstance(e, ast.Constant) and isinstance(e.value, bool)
-
-        ok = None
-        why = ""
-        decided = 0
-        for r in fa.returns():
-            if r.value is None or not fa.nodes(r):
+        # literal text -> (expression, CFG node) for every expression of the function that can become a literal
+        where_lit = {}
+        for st in fa.stmts():
+            ns = fa.nodes(st)
+            if not ns:
                 continue
-            # every way the answer is given: a constant under path conditions (`return False`, or a result variable that
-            # still holds a constant at the return - FA.outcomes), or an expression
-            const_ways = []   # (constant, [conjunctions])
-            if is_bool(r.value):
-                const_ways.append((r.value.value, fa.conditions(r)))
-            elif isinstance(r.value, ast.Name) and any(d.value is not None and is_bool(d.value) for i_ in fa.nodes(r) for d in fa.df.reaching(i_, r.value.id)):
-                oc = fa.outcomes(r.value.id)
-                for cv in (True, False):
-                    conjs = None if oc is None else [lits for (lits, txt) in oc if txt == repr(cv)]
-                    if conjs is None or conjs:
-                        const_ways.append((cv, conjs))
-            for (cv, conjs) in const_ways:
-                by_comparison = conjs is not None and bool(conjs) and all(any(l[0] in real_lits for l in conj) for conj in conjs)
-                if by_comparison:
-                    decided += 1
+            roots = [st.test] if isinstance(st, (ast.If, ast.While)) else [st.iter] if isinstance(st, (ast.For, ast.AsyncFor)) else \
+                [] if isinstance(st, (ast.Try, ast.With, ast.FunctionDef, ast.AsyncFunctionDef, ast.ClassDef)) else [st]
+            for rt in roots:
+                for x in A.walk_local(rt):
+                    if isinstance(x, (ast.Compare, ast.Call, ast.Name, ast.Attribute, ast.Subscript)) and not isinstance(getattr(x, "ctx", None), (ast.Store, ast.Del)):
+                        try:
+                            where_lit.setdefault(fa._literal(x, ns[0], True)[0], (x, ns[0]))
+                        except AnalysisError:
+                            pass
+
+        def strategy_scan(x, at):
+            """does expression `x` ask the rule strategies (HashRule.all_rules) whether they can hash the fresh object?"""
+            for c in ast.walk(x):
+                if isinstance(c, (ast.GeneratorExp, ast.ListComp, ast.SetComp)) and len(c.generators) == 1 \
+                        and fa.xnorm(c.generators[0].iter, at).endswith("HashRule.all_rules"):
+                    for t in ast.walk(c):
+                        if isinstance(t, ast.Call) and A.call_attr(t) == "try_resolve" and any(
+                                r_ == "fresh" for a_ in list(t.args) + [k.value for k in t.keywords] for (r_, _p, _f) in _access_paths(fa, a_, at)):
+                            return True
+            return False
+
+        lit_info = {}
+
+        def info(text):
+            """what one literal says: {'kind': 'cmp' | 'presence' | 'scan' | 'strategy-none' | None, ...}"""
+            if text in lit_info:
+                return lit_info[text]
+            (e, at) = where_lit.get(text, (_parse_lit(text), None))
+            res = {"kind": None}
+            if isinstance(e, ast.Compare) and len(e.ops) == 1:
+                lp_, rp_ = _access_paths(fa, e.left, at), _access_paths(fa, e.comparators[0], at)
+                op = e.ops[0]
+                if isinstance(op, (ast.Is, ast.IsNot, ast.Eq, ast.NotEq)):
+                    for (a_, b_) in ((lp_, rp_), (rp_, lp_)):
+                        fr = {x for x in a_ if x[0] == "fresh"}
+                        cp = {x for x in b_ if x[0].startswith("cap:") and x[0][4:] in captured}
+                        if fr and cp:
+                            narrow = sorted({p_ for (_r, p_, _f) in fr | cp if any(q_[:len(p_)] != p_ for (_fl, q_) in hashed)})
+                            res = {"kind": "cmp", "covering": not narrow, "narrow": narrow}
+                            break
+                    if res["kind"] is None and A.is_none(e.comparators[0]) and isinstance(op, (ast.Is, ast.IsNot)):
+                        fl = _flow(fa, e.left, at) if at is not None else {id(x): x for x in ast.walk(e.left)}
+                        if any(isinstance(x, ast.Call) and A.call_attr(x) == "try_resolve" for x in fl.values()):
+                            res = {"kind": "strategy-none"}
+                if isinstance(op, (ast.In, ast.NotIn)) and presence:
+                    sides = lp_ | rp_
+                    if any(r_ == "cap:symbol" for (r_, _p, _f) in lp_) and any(r_ in ("fresh", "cap:ref") for (r_, _p, _f) in rp_):
+                        res = {"kind": "presence"}
+                    del sides
+            elif isinstance(e, ast.Call) and A.call_attr(e) == "hasattr" and isinstance(e.func, ast.Name) and len(e.args) == 2 and presence:
+                if any(r_ in ("fresh", "cap:ref") for (r_, _p, _f) in _access_paths(fa, e.args[0], at)) \
+                        and any(r_ == "cap:symbol" for (r_, _p, _f) in _access_paths(fa, e.args[1], at)):
+                    res = {"kind": "presence"}
+            if res["kind"] is None and e is not None and at is not None and strategy_scan(e, at):
+                res = {"kind": "scan"}
+            lit_info[text] = res
+            return res
+
+        def returned(pth):
+            """(return statement, value expression or None, CFG node at which it is evaluated) at the end of a path"""
+            ret = next((cfg.node(i).ast for i in reversed(pth) if isinstance(cfg.node(i).ast, ast.Return)), None)
+            if ret is None or ret.value is None:
+                return (ret, None, None)
+            val, vnode = ret.value, next(i for i in reversed(pth) if cfg.node(i).ast is ret)
+            limit = len(pth)
+            for _ in range(6):
+                if not isinstance(val, ast.Name):
+                    break
+                hit = None
+                for k in range(limit - 1, -1, -1):
+                    ds = [d for d in fa.df.gen.get(pth[k], []) if d.name == val.id]
+                    if ds:
+                        hit = (k, ds[0])
+                        break
+                if hit is None or hit[1].kind != "assign" or hit[1].value is None:
+                    break
+                val, vnode, limit = hit[1].value, pth[hit[0]], hit[0]
+            return (ret, val, vnode)
+
+        scan_loops = set()
+        for n_ in cfg.nodes:
+            if n_.kind == "for" and n_.id in cfg.reachable_nodes() and fa.xnorm(n_.ast.iter, n_.id).endswith("HashRule.all_rules"):
+                if any(isinstance(t, ast.Call) and A.call_attr(t) == "try_resolve" and fa.nodes(t) and any(
+                        r_ == "fresh" for a_ in list(t.args) + [k.value for k in t.keywords] for (r_, _p, _f) in _access_paths(fa, a_, fa.nodes(t)[0]))
+                       for t in A.calls_in(n_.ast)):
+                    scan_loops.add(n_.id)
+
+        n_compared = 0          # ways (either answer) that were decided by the comparison
+        bad = {}                # id(return stmt) -> (return stmt, [reasons], constant?)
+        for (pth, lits) in paths:
+            (ret, val, vnode) = returned(pth)
+            if isinstance(val, ast.Constant) and val.value is not None:
+                ways = None if bool(val.value) else [[]]
+            elif val is None or A.is_none(val):
+                ways = [[]]
+            else:
+                try:
+                    ways = fa._alts(val, vnode, False)
+                except AnalysisError:
+                    ways = [[(A.norm(val), False)]]
+            base_cmp = [t for t in lits if info(t)["kind"] in ("cmp", "presence")]
+            if ways is None:
+                n_compared += bool(base_cmp)
+                continue  # "changed" without looking costs a recomputation, never a stale version
+            for w in ways:
+                conj = dict(lits)
+                if any(conj.setdefault(t, p_) != p_ for (t, p_) in w):
                     continue
-                if cv is True:
-                    continue  # "changed" without looking costs a recomputation, never a stale version
-                okg = conjs is not None and all(any(l in conj for l in allowed_false_guard) or any(l[0] in real_lits for l in conj) for conj in conjs)
-                extra = sorted({("" if l[1] else "not ") + l[0] for conj in (conjs or []) for l in conj if l not in allowed_false_guard and l[0] not in real_lits})
-                unguarded = conjs is not None and any(not conj for conj in conjs)
-                ck.ob(R, fa.key(r, "no-shortcut"), okg, "False is answered without comparing only when nothing is tracked" if okg else
-                      "%s.did_change answers False early under `%s`: a value changed without re-binding the name (list.append, dict[k] = v) or "
-                      "an equal-looking replacement is never noticed" % (cls.name, "; ".join(extra)[:80] if extra else "no guard"), fa.where(r))
-                if unguarded and ok is None:
-                    ok, why = False, "returns the constant False"
-            if const_ways and not (isinstance(r.value, ast.Name)):
+                kinds = {t: info(t) for t in conj}
+                cmps = [t for t in conj if kinds[t]["kind"] == "cmp"]
+                ok_way = any((t, p_) in allowed_false_guard for t, p_ in conj.items())
+                ok_way = ok_way or any(conj[t] is True and kinds[t]["covering"] for t in cmps)
+                if presence:
+                    ok_way = ok_way or any(kinds[t]["kind"] == "presence" and conj[t] is False for t in conj)
+                if watch_only and not ok_way:
+                    # nothing is hashed for the symbol itself: once the comparison has said "bound to another object", the answer
+                    # may be narrowed to "and some strategy can hash it now" - asked of the fresh object, of every strategy
+                    asked = any(kinds[t]["kind"] == "scan" for t in conj) or bool(scan_loops & set(pth))
+                    ok_way = any(conj[t] is False for t in cmps) and asked and not any(kinds[t]["kind"] == "strategy-none" and conj[t] is False for t in conj)
+                if ok_way:
+                    n_compared += 1
+                    continue
+                narrow = sorted({p_ for t in cmps if conj[t] is True for p_ in kinds[t]["narrow"]})
+                extra = sorted({("" if p_ else "not ") + t for t, p_ in conj.items() if (t, p_) not in allowed_false_guard and kinds[t]["kind"] is None})
+                key_node = ret if ret is not None else fa.node
+                ent = bad.setdefault(id(key_node), (ret, [], []))
+                if narrow:
+                    ent[1].append("narrow:" + "; ".join("".join("." + s_ for s_ in p_) for p_ in narrow))
+                else:
+                    ent[1].append("; ".join(extra)[:80] if extra else "no guard")
+                ent[2].append(not conj)
+        for r in fa.returns():
+            if r.value is None or not fa.nodes(r) or not (isinstance(r.value, ast.Constant) or isinstance(r.value, ast.Name)) or id(r) in bad:
                 continue
-            # an expression (or a result variable that may hold one)
-            for i_ in fa.nodes(r):
-                fresh, cap, cmp_ = judge(r.value, i_)
-                if fresh and cap and cmp_:
-                    decided += 1
-                elif fresh and _is_watch_only(cls) and "call:try_resolve" in fa.df.deps(r.value, i_) \
-                        and (lambda cj: cj is not None and bool(cj) and all(any(l[0] in real_lits for l in conj) for conj in cj))(fa.conditions(r)):
-                    # a watch-only rule contributes nothing itself: once the comparison has said "bound to another object",
-                    # the answer may be narrowed to "and some strategy can hash it now" (asked of the fresh resolution)
-                    decided += 1
-                elif ok is None and not (const_ways and not (fresh or cap or cmp_)):
-                    ok = False
-                    why = ("does not re-resolve the symbol" if not fresh else
-                           "does not compare with the captured %s (a type test alone cannot see that the name now designates a different object)" % "/".join(captured) if not cap else
-                           "does not compare")
-        if ok is None:
-            ok = decided > 0
-            why = why or "returns a constant"
+            if isinstance(r.value, ast.Constant) and r.value.value is False:
+                ck.ob(R, fa.key(r, "no-shortcut"), True, "False is answered without comparing only when nothing is tracked", fa.where(r))
+        why = ""
+        for (ret, reasons, unguarded) in bad.values():
+            narrow = [x for x in reasons if x.startswith("narrow:")]
+            if narrow:
+                ck.ob(R, fa.key(ret, "compares-what-is-hashed"), False,
+                      "%s.did_change answers 'unchanged' when only `%s` of the freshly resolved object equals that of the captured one, but the rule's hash "
+                      "(compute_hash) is computed from %s: an object that differs elsewhere (default values, captured closure constants, another "
+                      "attribute) gets a different hash, yet no recomputation is asked for and results of the earlier edition are served"
+                      % (cls.name, narrow[0][7:], ", ".join(sorted(_fmt_path(f_, q_) for (f_, q_) in hashed)) or "nothing"), fa.where(ret))
+                why = why or "compares only a part (%s) of what the rule hashes" % narrow[0][7:]
+            rest = [x for x in reasons if not x.startswith("narrow:")]
+            if rest:
+                ck.ob(R, fa.key(ret, "no-shortcut"), False,
+                      "%s.did_change answers False early under `%s`: a value changed without re-binding the name (list.append, dict[k] = v) or "
+                      "an equal-looking replacement is never noticed" % (cls.name, rest[0]), fa.where(ret))
+                if any(unguarded):
+                    why = why or "returns the constant False"
+        # the overall verdict, with the most specific reason
+        any_fresh = any(r_ == "fresh" for st in fa.stmts() if fa.nodes(st) for x in A.walk_local(st) if isinstance(x, ast.Call)
+                        for (r_, _p, _f) in _access_paths(fa, x, None))
+        any_real = any(i_["kind"] in ("cmp", "presence") for i_ in lit_info.values())
+        ok = not bad and n_compared > 0
+        if not ok and not why:
+            why = ("does not re-resolve the symbol" if not (any_fresh or (presence and any_real)) else
+                   "does not compare with the captured %s (a type test alone cannot see that the name now designates a different object)" % "/".join(captured) if not any_real else
+                   "returns a constant" if not bad else "can answer 'unchanged' without the comparison having said so")
         ck.ob(R, fa.key(None), ok, "%s.did_change compares a fresh resolution with the captured %s" % (cls.name, "/".join(captured)) if ok else
               "%s.did_change %s" % (cls.name, why), fa.where())
 
